@@ -73,6 +73,11 @@ theorem skel_Sort_good : Generated.skel_MultiSorterSort = Skeletons.expected_ske
 theorem skel_Swap_good : Generated.skel_MultiSorterSwap = Skeletons.expected_skel_MultiSorterSwap := by decide
 theorem skel_Len_good : Generated.skel_MultiSorterLen = Skeletons.expected_skel_MultiSorterLen := by decide
 theorem skel_OrderedBy_good : Generated.skel_OrderedBy = Skeletons.expected_skel_OrderedBy := by decide
+/-- the accessors the keys read: `Port()` (the port of the node's address), `ID()`, `LastErr()`, `Address()` -/
+theorem skel_PortAccessor_good : Generated.skel_node_RawNode_Port = Skeletons.expected_skel_node_RawNode_Port := by decide
+theorem skel_IDAccessor_good : Generated.skel_node_RawNode_ID = Skeletons.expected_skel_node_RawNode_ID := by decide
+theorem skel_LastErrAccessor_good : Generated.skel_node_RawNode_LastErr = Skeletons.expected_skel_node_RawNode_LastErr := by decide
+theorem skel_AddressAccessor_good : Generated.skel_node_RawNode_Address = Skeletons.expected_skel_node_RawNode_Address := by decide
 
 end GorumsV.Tie.C19
 
@@ -91,6 +96,10 @@ open GorumsV.Tie.C19 GorumsV.C19
 #print axioms skel_Swap_good
 #print axioms skel_Len_good
 #print axioms skel_OrderedBy_good
+#print axioms skel_PortAccessor_good
+#print axioms skel_IDAccessor_good
+#print axioms skel_LastErrAccessor_good
+#print axioms skel_AddressAccessor_good
 #print axioms multiLess_is_lex
 #print axioms lex_swo
 #print axioms byID_swo
